@@ -306,6 +306,15 @@ def explore_schedules(harness, bound, max_exec=None, on_exec=None, horizon=5000,
     return stats
 
 
+def replay_scheduler(case, **kw):
+    """Scheduler for replaying ``case['schedule']`` at the granularity it was recorded at."""
+    if case.get("line_level"):
+        import os
+        import canopen
+        kw["line_root"] = os.path.dirname(os.path.abspath(canopen.__file__))
+    return Scheduler(case["schedule"], **kw)
+
+
 def explore_with_crosscheck(st, harness, bound, on_exec, case, line_bound=1):
     """Attribute-level exploration at ``bound`` followed by the own-the-nondeterminism cross-check: the same
     harness with every source line of the canopen package as a scheduling point (``line_bound`` preemptions) is
@@ -332,6 +341,9 @@ def explore_with_crosscheck(st, harness, bound, on_exec, case, line_bound=1):
     nviol = len(st.violations)
     fine_stats, fine = labelled(bound=line_bound, line_root=root)
     st.count("line_level_schedules", fine_stats["executions"])
+    for v in st.violations[nviol:]:
+        if isinstance(v["case"], dict):
+            v["case"]["line_level"] = True       # the recorded schedule is over line-level points: replay the same way
     if fine - coarse and len(st.violations) == nviol:
         # (when the line-level pass itself found violations they are reported as such; an unseen but *accepted*
         # outcome means the attribute-level instrumentation misses shared state)
